@@ -103,8 +103,12 @@ Chain(F, r, D) ==
         needs == IF ~plan.ok \/ n = 0 THEN NeedsOf(<<s0>>)
                  ELSE NeedsOf(<<s0>> \o [j \in 1..n |-> prev(j)] \o [j \in 1..n |-> exp(j)])
         RECURSIVE walk(_, _)
+        pdepth(j) == IF j = 1 THEN start.val.depth ELSE all[j - 1].depth
         walk(j, len) ==
             IF j > n THEN [c |-> "", at |-> 0]
+            \* a child of a key at depth 255 would have depth 256, which has no serialization: refusing it is right,
+            \* and whatever an implementation does from there on is not compared
+            ELSE IF (j = 1 \/ all[j - 1].ok) /\ pdepth(j) >= 255 THEN [c |-> "", at |-> 0]
             ELSE LET o == all[j]  e == exp(j)  l2 == len \/ plan.steps[j].lenient IN
                  IF (j > 1 /\ ~all[j - 1].ok) \/ e.st = "err"
                  THEN (IF o.ok THEN [c |-> IF e.st = "err" /\ ~(j > 1 /\ ~all[j - 1].ok) THEN "invalid-child-key-returned"
